@@ -11,11 +11,7 @@
 (* record kinds (one TLC initial state per record, batched):               *)
 (*  "ratio": [family, api, n, w]  w = <<work(n), work(2n), work(4n), ...>> *)
 (*           work = interpreter-level function calls (sys.setprofile       *)
-(*           'call' + 'c_call'), or - api ending in "/units" - the summed  *)
-(*           lengths of the primitives that calls cannot see (tokens.pop(0)*)
-(*           and insert = queue length, buffer copy on refill, simple-key  *)
-(*           table loops, emitter look-ahead walk), observed through the   *)
-(*           stage interfaces                                              *)
+(*           'call' + 'c_call')                                            *)
 (*  "prim":  the structural bounds of Work.tla / WorkReader.tla /          *)
 (*           WorkEmit.tla instantiated with the REAL constants             *)
 (*           (MaxKey = 1024, Block = the observed read size):              *)
